@@ -43,7 +43,7 @@ CHECKS = {
    note="one open known finding (prefetch swallowing pipelined bytes when 0 < MaxRequestBodySize < Content-Length) is reported as KNOWN-FINDING; small-body regime only",
    ref="DESIGN.md §4 C14"),
  "C18": dict(
-   text="Only the sequential clauses of C18 are decided by this technique: with the engine's running flag turning false at a symbolic request index, the real Serve loop completes that request's response with Connection: close, handles nothing afterwards and returns errShortConnection; and Engine.Shutdown from every status value touches the transport and the hooks exactly once when running and reports an error otherwise (goroutines under two fixed schedules: as early / as late as possible); the transport is asked to close its listener without waiting for slow hooks (modelled clock); the real standard transport's Shutdown closes the listener once and before it waits for active connections, returns nil when they are gone and the context error at the caller's deadline (ticker on the modelled clock). Hooks overlapping in time, a deadline passing while a hook runs, the accept loop's accounting against a concurrent Shutdown and netpoll's transport are not addressed (no scheduler in the encoding).",
+   text="Only the sequential clauses of C18 (two fixed goroutine schedules) are decided by this technique: with the engine's running flag turning false at a symbolic request index, the real Serve loop completes that request's response with Connection: close, handles nothing afterwards and returns errShortConnection; and Engine.Shutdown from every status value touches the transport and the hooks exactly once when running and reports an error otherwise (goroutines under two fixed schedules: as early / as late as possible); the transport is asked to close its listener without waiting for slow hooks (modelled clock); the real standard transport's Shutdown closes the listener once and before it waits for active connections, returns nil when they are gone and the context error at the caller's deadline (ticker on the modelled clock); and the wait bound on the modelled clock (ZZ_C18_H5: exit wait 1 s, drain 0/400/800 ms or until the deadline, hook fast / until its context is done / never returning, caller context live or cancelled; context timers fire in deadline order when nothing else can happen): Shutdown returns within the exit wait plus 0.3 s. Hooks overlapping in time, the accept loop's accounting against a concurrent Shutdown and netpoll's transport are not addressed (no scheduler in the encoding).",
    note="narrowed claim (DESIGN.md §4 C18); the rest of C18 is outside solver-based checking of sequential code",
    ref="DESIGN.md §4 C18"),
  "C19": dict(
@@ -81,8 +81,8 @@ CHECKS = {
 }
 
 CHECKS["C16"] = dict(
-   text="Narrowed: the router tree the hz generator builds from a declared (verb, path, handler name) set - RouterNode.Update/Insert/FindNearest/Sort, DyeGroupName and the identifier mangling in util (ToVarName, ToGoFuncName, GetMiddlewareUniqueName) - is executed from SSA (second Go module cmd/hz) for every set of up to 2 routes of up to D segments (and every set of exactly 3 routes over a smaller alphabet) over an alphabet with parameters, a catch-all, segments colliding after mangling, trailing slash and root path, verbs GET/POST/Any, router sorting on/off. The tree is then read through a hand-written interpreter of the router.go/middleware.go templates (Go block scoping of := variables, hertz path joining): every group variable declared before use, none declared twice in a block, none unused, valid and distinct identifiers, and exactly the declared (verb, path) set registered, each with its handler inside the groups of its path prefixes.",
-   note="the text/template bodies are NOT executed (a change to the template text is invisible to this check), nor are the IDL front ends, go/format, file output, handler-by-method aliases or the update of an existing router file; for snake-style names DyeGroupName(true) and appendMw are real and the loop of genRouter that connects them is repeated in the harness; route sets are concrete choices; the interpreter was validated once against the real templates + go compiler on 684 route sets (tools/c16_validate.sh)",
+   text="Narrowed: the router tree the hz generator builds from a declared (verb, path, handler name) set - RouterNode.Update/Insert/FindNearest/Sort, DyeGroupName and the identifier mangling in util (ToVarName, ToGoFuncName, GetMiddlewareUniqueName) - is executed from SSA (second Go module cmd/hz) for every set of up to 2 routes of up to D segments (and every set of exactly 3 routes over a smaller alphabet) over an alphabet with parameters, a catch-all, segments colliding after mangling, trailing slash and root path, verbs GET/POST/Any, router sorting on/off. The tree is then read through a hand-written interpreter of the router.go/middleware.go templates (Go block scoping of := variables, hertz path joining): every group variable declared before use, none declared twice in a block, none unused, valid and distinct identifiers, and exactly the declared (verb, path) set registered, each with its handler inside the groups of its path prefixes. ZZ_C16_H8 also renders the current text of sub-templates G and M through an interpreter of the text/template subset they use and reads the emitted statements back: expected statement shapes, declared-before-use, registrations == declared set, every middleware function called is defined exactly once, and agreement with the structural reading.",
+   note="the text/template package is not executed: the two router sub-templates (G in router.go, M in middleware.go) are run on their current text by a subset interpreter in the harness (ZZ_C16_H8; its native twin demands byte-identical output from the real text/template), the file-level text around them (package clause, imports) is not read; the IDL front ends, go/format, file output and the update of an existing router file are outside; for snake-style names DyeGroupName(true) and appendMw are real and the loop of genRouter that connects them is repeated in the harness; route sets are concrete choices; the interpreter was validated once against the real templates + go compiler on 684 route sets (tools/c16_validate.sh)",
    ref="DESIGN.md §4 C16")
 
 NOT_APPLICABLE = {
